@@ -1,9 +1,12 @@
 (* C06 - Module identity: unique ids, sound dynamic ids.  Property theorems only
    (proofs: Proofs/Connect.v, Proofs/StepInv.v, Proofs/Assign.v).  The client-side half of the
-   property (options passed through Client.connect / client_context) is checked by differential
-   execution only: see vlib/props/C06.py. *)
+   property (options passed through Client.connect / client_context reach the CONNECT frames under the
+   names they were given): Gen/ClientConnect.v is regenerated from client.py by following the argument
+   bindings of client_context -> Client(...) / .connect(...) -> _connect_helper(...) symbolically;
+   C06_connect_options_named / C06_context_options_named state that every option lands in its own field.
+   The same is observed on the wire by the plumbing probe of vlib/props/C06.py (real Client, scripted peer). *)
 From Coq Require Import ZArith List Bool Lia.
-From Mgr Require Import Gen.MgrDefs Model.Manager Proofs.RegInv Proofs.RegTop Proofs.Connect Proofs.StepInv Proofs.Assign.
+From Mgr Require Import Gen.MgrDefs Gen.ClientConnect Model.Manager Proofs.RegInv Proofs.RegTop Proofs.Connect Proofs.StepInv Proofs.Assign.
 Import ListNotations.
 Open Scope Z_scope.
 
@@ -60,3 +63,18 @@ Example C06_ex :
   | Crash _ _ => []
   end = [(0, 0, true, true); (1, 10, true, true); (2, 10, false, false); (3, 100, true, true)].
 Proof. vm_compute. reflexivity. Qed.
+
+(* ---- the client side: options reach the manager under their own names ---- *)
+Theorem C06_connect_options_named : forall mid lg dm am,
+  connect_fields mid lg dm am =
+  {| v2_logger := b2z lg; v2_daemon := b2z dm; v2_allow_multiple := b2z am; v2_mod_id := mid;
+     v1_logger := b2z lg; v1_daemon := b2z dm |}.
+Proof. intros mid lg dm am. unfold connect_fields. destruct (mid =? 0) eqn:E; [apply Z.eqb_eq in E; subst|]; reflexivity. Qed.
+
+(* client_context has no daemon option: the daemon fields are 0, allow_multiple is allow_multiple *)
+Theorem C06_context_options_named : forall mid lg am,
+  context_fields mid lg am =
+  {| v2_logger := b2z lg; v2_daemon := 0; v2_allow_multiple := b2z am; v2_mod_id := mid;
+     v1_logger := b2z lg; v1_daemon := 0 |}.
+Proof. intros mid lg am. unfold context_fields. destruct (mid =? 0) eqn:E; [apply Z.eqb_eq in E; subst|]; reflexivity. Qed.
+
